@@ -34,6 +34,10 @@ func RunC12(c *Ctx, r *Report) {
 	c.akaRules(r, prefix, "stability")
 	c.akaPaddingRule(r, prefix)
 	c.akaEmitsAllRule(r, prefix+"aka.emits-every-attribute")
+	// the type a payload is re-announced under is the type it was dispatched from
+	c.bijectionRule(r, prefix+"dispatch.ike", c.Method("message", "IKEPayloadContainer", "Decode"), "message", "IKEPayload", "Type", 16)
+	c.bijectionRule(r, prefix+"dispatch.eap", c.Method("eap", "EAP", "Unmarshal"), "eap", "EapTypeData", "Type", 5)
+	c.noSilentSkipRule(r, prefix+"decode.no-silent-skip", "eap", "message")
 	c.encodeOwnHeaderRule(r, prefix+"encode-own-header")
 	c.elementFreshRule(r, prefix+"decode.element-fresh")
 	c.counterNoWrapRule(r, prefix+"codec.counter-no-wrap")
@@ -80,6 +84,7 @@ func RunC14(c *Ctx, r *Report) {
 	we.specCompare(r, prefix+"eap.r-equals-spec", "decode", we.dec)
 	we.nestedDispatchRule(r, prefix+"eap.nested-dispatch")
 	c.akaEmitsAllRule(r, prefix+"aka.emits-every-attribute")
+	c.bijectionRule(r, prefix+"dispatch.eap", c.Method("eap", "EAP", "Unmarshal"), "eap", "EapTypeData", "Type", 5)
 	ruleA := prefix + "eap.values-copied"
 	r.Rule(ruleA, "every octet string an EAP decoder stores is a copy of the input octets, not a sub-slice of the input (a value read back later is the value decoded, whatever happens to the receive buffer)", 4)
 	for _, rec := range we.recs {
@@ -95,6 +100,8 @@ func RunC14(c *Ctx, r *Report) {
 		}
 	}
 	c.valueGuardRule(r, prefix+"value-guards")
+	c.noSilentSkipRule(r, prefix+"decode.no-silent-skip", "eap", "message")
+	c.assignedNumbersRule(r, prefix+"assigned-numbers", "eap")
 	// decoding is a function of the octets, not of what an earlier call left in the object decoded into
 	{
 		dscope := c.DecodeScope(r, prefix)
@@ -1017,6 +1024,19 @@ func (c *Ctx) akaValueIdentityRule(r *Report, prefix string) {
 					continue
 				}
 				n++
+				// append(<empty fresh slice>, value...): nil, or make([]byte, 0[, n]) - the same private copy
+				if ap := isAppendCall(st.Val); ap != nil && len(ap.Call.Args) == 2 && valParam != nil && ap.Call.Args[1] == ssa.Value(valParam) {
+					base := ap.Call.Args[0]
+					empty := isNilConst(base)
+					if mk0, ok := base.(*ssa.MakeSlice); ok {
+						if l := f.LFOf(mk0.Len); l.isConst() && l.C == 0 {
+							empty = true
+						}
+					}
+					if empty {
+						continue
+					}
+				}
 				mk, isMk := st.Val.(*ssa.MakeSlice)
 				if !isMk || valParam == nil || f.pin(f.LFOf(mk.Len), f.FactsAt(b)).key() != f.pin(f.SliceLen(valParam), f.FactsAt(b)).key() {
 					okAll = false
